@@ -556,51 +556,66 @@ theorem instruction_sizeMod (v : V) : SizeMod Instruction.lenM Instruction.marsh
 
 /-! ### buckets and GroupMod -/
 
-/-- What a Bucket reports and what it writes: the encoding is 16 bytes plus the complete action encodings (no padding
-    is ever written); the reported size (also stored in the Length field) is that number ROUNDED UP to a multiple
-    of 8, in uint16.  For every bucket. -/
-theorem bucket_size_exact (v : V) (l : UInt16) (v1 : V) (bs : Bytes) (v2 : V)
-    (h1 : Bucket.lenM v = .ok (l, v1)) (h2 : Bucket.marshalM v = .ok (bs, v2)) :
-    l = round8 (n16 bs.length) := by
+/-- Bucket: the 16 fixed bytes (Length = Len(), weight, watch port, watch group, 4 zero bytes), then exactly the
+    encodings of the actions (as Len() left them), complete and in order, then zero padding up to the reported size
+    (nothing when the body already reaches it).  For every bucket. -/
+theorem bucket_embeds (v : V) (bs : Bytes) (v2 : V) (h2 : Bucket.marshalM v = .ok (bs, v2)) :
+    ∃ l0 wt wp wg p as ls as1 bss as2, v = .obj "Bucket" [l0, .num wt, .num wp, .num wg, p, .list as] ∧
+      mapM2 Action.lenM as = .ok (ls, as1) ∧ mapM2 Action.marshalM as1 = .ok (bss, as2) ∧
+      bs = be16 (round8 (16 + sum16 ls)) ++ be16 (n16 wt) ++ be32 (n32 wp) ++ be32 (n32 wg) ++ zeros 4 ++ bss.flatten ++
+        zeros ((round8 (16 + sum16 ls)).toNat - (16 + bss.flatten.length)) := by
   unfold Bucket.marshalM at h2
-  obtain ⟨⟨l', v'⟩, hl, h3⟩ := bind_ok_inv _ _ _ h2
-  rw [h1] at hl
-  cases hl
-  unfold Bucket.lenM at h1
-  split at h1
-  · obtain ⟨⟨ls, as'⟩, hm, h1'⟩ := bind_ok_inv _ _ _ h1
-    cases h1'
+  obtain ⟨⟨l, v'⟩, hl, h3⟩ := bind_ok_inv _ _ _ h2
+  unfold Bucket.lenM at hl
+  split at hl
+  · rename_i l0 w' wp' wg' p as
+    obtain ⟨⟨ls, as1⟩, hm, hl'⟩ := bind_ok_inv _ _ _ hl
+    cases hl'
     simp only at h3
     split at h3
     · rename_i heq
       cases heq
-      obtain ⟨⟨abs, as'', e⟩, hml, h4⟩ := bind_ok_inv _ _ _ h3
+      obtain ⟨⟨abs, as2, e⟩, hml, h4⟩ := bind_ok_inv _ _ _ h3
+      obtain ⟨bss, hmm, rfl⟩ := marshalList_eq_mapM2 _ _ _ _ _ _ (fun x _ => Action.marshalM_noErr x) hml
       simp only at h4
       split at h4
       · exact absurd h4 (by simp)
       · cases h4
-        have key := marshalList_length_after Action.lenM Action.marshalM _ _ _ _ _ _ _ hm hml
-          (fun x _ => Action.marshalM_noErr x)
-          (fun x _ l y b z hx hy => (action_size y).toMod l y b z (Action.lenM_idem x l y hx) hy)
-        congr 1
-        apply UInt16.toNat_inj.mp
-        rw [UInt16.toNat_add, key]
-        simp only [List.length_append, be16_length, be32_length, zeros_length, n16, UInt16.toNat_ofNat']
-        have : (2:Nat) ^ 16 = 65536 := rfl
-        have h16 : (16 : UInt16).toNat = 16 := rfl
-        rw [this, h16]; omega
+        refine ⟨l0, _, _, _, p, as, ls, as1, bss, as2, rfl, hm, hmm, ?_⟩
+        congr 2
+        simp only [List.length_append, be16_length, be32_length, zeros_length]
     · exact absurd h3 (by simp)
-  · exact absurd h1 (by simp)
+  · exact absurd hl (by simp)
 
-/-- Bucket, reported size = encoded size (mod 2^16) — PARTIAL: only for buckets whose encoding is a multiple of 8 bytes
-    long (every action it holds reports a multiple of 8).  Full statement `SizeMod Bucket.lenM Bucket.marshalM v` is
-    FALSE, see `bucket_size_counterexample`. -/
-theorem bucket_size_partial (v : V) (l : UInt16) (v1 : V) (bs : Bytes) (v2 : V)
-    (h1 : Bucket.lenM v = .ok (l, v1)) (h2 : Bucket.marshalM v = .ok (bs, v2)) (hal : bs.length % 8 = 0) :
-    l.toNat = bs.length % 65536 := by
-  rw [bucket_size_exact v l v1 bs v2 h1 h2]
-  have : (n16 bs.length).toNat = bs.length % 65536 := by simp [n16, UInt16.toNat_ofNat']
-  rw [round8_of_aligned _ (by omega), this]
+/-- Bucket: reported size = encoded size, EXACTLY when there is no uint16 wrap-around: for every bucket whose encoding
+    is at most 65528 bytes long (65528 is the largest size a bucket can report).  With the padding now written this
+    needs no alignment hypothesis on the actions. -/
+theorem bucket_size (v : V) (l : UInt16) (v1 : V) (bs : Bytes) (v2 : V)
+    (h1 : Bucket.lenM v = .ok (l, v1)) (h2 : Bucket.marshalM v = .ok (bs, v2)) (hfit : bs.length ≤ 65528) :
+    bs.length = l.toNat := by
+  obtain ⟨l0, wt, wp, wg, p, as, ls, as1, bss, as2, rfl, hm, hmm, rfl⟩ := bucket_embeds v bs v2 h2
+  simp only [Bucket.lenM, hm, Res.bind_ok] at h1
+  cases h1
+  have key := mapM2_flatten_after Action.lenM Action.marshalM _ _ _ _ _ hm hmm
+    (fun x _ l y b z hx hy => (action_size y).toMod l y b z (Action.lenM_idem x l y hx) hy)
+  simp only [List.length_append, be16_length, be32_length, zeros_length] at hfit ⊢
+  have e4 : (16 + sum16 ls : UInt16).toNat = 16 + bss.flatten.length := by
+    rw [UInt16.toNat_add, key]
+    have : (2:Nat) ^ 16 = 65536 := rfl
+    have h16 : (16 : UInt16).toNat = 16 := rfl
+    rw [this, h16]; omega
+  have e5 := round8_ge (16 + sum16 ls) (by omega)
+  omega
+
+/-- …and conversely: if the encoding is longer than the reported size, the body alone already exceeds it (the sizes of
+    the actions wrapped around in uint16) -/
+theorem bucket_size_ge (v : V) (l : UInt16) (v1 : V) (bs : Bytes) (v2 : V)
+    (h1 : Bucket.lenM v = .ok (l, v1)) (h2 : Bucket.marshalM v = .ok (bs, v2)) : l.toNat ≤ bs.length := by
+  obtain ⟨l0, wt, wp, wg, p, as, ls, as1, bss, as2, rfl, hm, hmm, rfl⟩ := bucket_embeds v bs v2 h2
+  simp only [Bucket.lenM, hm, Res.bind_ok] at h1
+  cases h1
+  simp only [List.length_append, be16_length, be32_length, zeros_length]
+  omega
 
 /-- the size a Bucket reports is a multiple of 8 -/
 theorem bucket_len_aligned (v : V) (l : UInt16) (v1 : V) (h : Bucket.lenM v = .ok (l, v1)) : l.toNat % 8 = 0 := by
@@ -611,18 +626,16 @@ theorem bucket_len_aligned (v : V) (l : UInt16) (v1 : V) (h : Bucket.lenM v = .o
     exact round8_aligned _
   · exact absurd h (by simp)
 
-/-- GENUINE DEFECT (model of group.go): a bucket holding an action whose size is not a multiple of 8 — here the 4-byte
-    header-only action the library uses for COPY_TTL_OUT etc. — reports 24 bytes (and writes Length = 24) but
-    encodes to 20 bytes: the padding Len() accounts for is never written. -/
-theorem bucket_size_counterexample :
-    ∃ v l v1 bs v2, Bucket.lenM v = .ok (l, v1) ∧ Bucket.marshalM v = .ok (bs, v2) ∧ l.toNat = 24 ∧ bs.length = 20 :=
+/-- the former defect is gone: a bucket holding a 4-byte header-only action reports 24 bytes and now encodes to 24
+    bytes (20 + 4 bytes of padding) -/
+theorem bucket_size_padded_example :
+    ∃ v l v1 bs v2, Bucket.lenM v = .ok (l, v1) ∧ Bucket.marshalM v = .ok (bs, v2) ∧ l.toNat = 24 ∧ bs.length = 24 :=
   ⟨.obj "Bucket" [.num 0, .num 0, .num 0, .num 0, .bytes [], .list [ActionHeader.mk Gen.openflow13.ActionType_CopyTtlOut 4]],
    24, _, _, _, rfl, rfl, rfl, rfl⟩
 
-/-- GroupMod, reported size (also written to Header.Length) = encoded size mod 2^16 — PARTIAL: for DELETE commands
-    (no buckets on the wire) always; otherwise when every bucket's encoding is a multiple of 8 bytes.
-    The full statement is false because of `bucket_size_counterexample` (see `groupMod_size_counterexample`). -/
-theorem groupMod_size_partial (h cmd t p g : V) (bks : List V) (hal : ∀ b ∈ bks, BucketAligned b) :
+/-- GroupMod, reported size (also written to Header.Length) = encoded size mod 2^16: for DELETE commands (no buckets on
+    the wire) always; otherwise when no bucket's size wraps (`BucketFits`: its encoding is at most 65528 bytes) -/
+theorem groupMod_size (h cmd t p g : V) (bks : List V) (hfit : ∀ b ∈ bks, BucketFits b) :
     SizeMod GroupMod.lenM GroupMod.marshalM (.obj "GroupMod" [h, cmd, t, p, g, .list bks]) := by
   intro l v1 bs v2 h1 h2
   unfold GroupMod.marshalM at h2
@@ -669,7 +682,9 @@ theorem groupMod_size_partial (h cmd t p g : V) (bks : List V) (hal : ∀ b ∈ 
               unfold Bucket.marshalCopyM at hy
               obtain ⟨⟨b', z'⟩, hmy, hy'⟩ := bind_ok_inv _ _ _ hy
               cases hy'
-              exact bucket_size_partial y l y b z' (Bucket.lenM_idem x l y hlx) hmy (hal x hx l y b z' hlx hmy))
+              have := bucket_size y l y b z' (Bucket.lenM_idem x l y hlx) hmy (hfit x hx l y b z' hlx hmy)
+              have hl := l.toNat_lt
+              omega)
           have := Header.bytes_length _ _ hhb
           simp only [List.length_append, this, be16_length, be32_length, List.length_cons, List.length_nil]
           rw [UInt16.toNat_add, key]
@@ -752,17 +767,20 @@ theorem flowMod_sizeMod (v : V) : SizeMod FlowMod.lenM FlowMod.marshalM v := by
       · exact absurd h3 (by simp)
   · exact absurd h1 (by simp)
 
-/-- FlowRemoved: allocated from Len(), so exactly the reported size -/
+/-- FlowRemoved: Header.Length = Len() is stored, the buffer is allocated from a second (equal) Len() -/
 theorem flowRemoved_size (v : V) : SizeOK FlowRemoved.lenM FlowRemoved.marshalM v := by
   intro l v1 bs v2 h1 h2
   unfold FlowRemoved.marshalM at h2
-  obtain ⟨⟨l', v'⟩, hl, h3⟩ := bind_ok_inv _ _ _ h2
-  rw [h1] at hl
-  cases hl
-  simp only at h3
-  split at h3
-  · revert h3; size_fill
-  · exact absurd h3 (by simp)
+  obtain ⟨⟨l0, v0⟩, hl0, h3⟩ := bind_ok_inv _ _ _ h2
+  rw [h1] at hl0
+  cases hl0
+  obtain ⟨⟨l', v'⟩, hl1, h4⟩ := bind_ok_inv _ _ _ h3
+  obtain ⟨e0, e1, e2⟩ := len_twice FlowRemoved.lenM_pure h1 hl1
+  subst e0; subst e1; subst e2
+  simp only at h4
+  split at h4
+  · revert h4; size_fill
+  · exact absurd h4 (by simp)
 
 /-! ### common header, Hello -/
 
@@ -863,29 +881,35 @@ theorem switchConfig_size (v : V) : SizeOK SwitchConfig.lenM SwitchConfig.marsha
   · revert h4; size_fill
   · exact absurd h4 (by simp)
 
-/-- ErrorMsg: 12 + len(Data) -/
+/-- ErrorMsg: 12 + len(Data); Header.Length = Len() is stored, the buffer is allocated from a second (equal) Len() -/
 theorem errorMsg_size (v : V) : SizeOK ErrorMsg.lenM ErrorMsg.marshalM v := by
   intro l v1 bs v2 h1 h2
   unfold ErrorMsg.marshalM at h2
-  obtain ⟨⟨l', v'⟩, hl, h3⟩ := bind_ok_inv _ _ _ h2
-  rw [h1] at hl
-  cases hl
-  simp only at h3
-  split at h3
-  · revert h3; size_fill
-  · exact absurd h3 (by simp)
+  obtain ⟨⟨l0, v0⟩, hl0, h3⟩ := bind_ok_inv _ _ _ h2
+  rw [h1] at hl0
+  cases hl0
+  obtain ⟨⟨l', v'⟩, hl1, h4⟩ := bind_ok_inv _ _ _ h3
+  obtain ⟨e0, e1, e2⟩ := len_twice ErrorMsg.lenM_pure h1 hl1
+  subst e0; subst e1; subst e2
+  simp only at h4
+  split at h4
+  · revert h4; size_fill
+  · exact absurd h4 (by simp)
 
-/-- VendorError: 16 + len(Data) -/
+/-- VendorError: 16 + len(Data); Header.Length = Len() is stored, the buffer is allocated from a second (equal) Len() -/
 theorem vendorError_size (v : V) : SizeOK VendorError.lenM VendorError.marshalM v := by
   intro l v1 bs v2 h1 h2
   unfold VendorError.marshalM at h2
-  obtain ⟨⟨l', v'⟩, hl, h3⟩ := bind_ok_inv _ _ _ h2
-  rw [h1] at hl
-  cases hl
-  simp only at h3
-  split at h3
-  · revert h3; size_fill
-  · exact absurd h3 (by simp)
+  obtain ⟨⟨l0, v0⟩, hl0, h3⟩ := bind_ok_inv _ _ _ h2
+  rw [h1] at hl0
+  cases hl0
+  obtain ⟨⟨l', v'⟩, hl1, h4⟩ := bind_ok_inv _ _ _ h3
+  obtain ⟨e0, e1, e2⟩ := len_twice VendorError.lenM_pure h1 hl1
+  subst e0; subst e1; subst e2
+  simp only at h4
+  split at h4
+  · revert h4; size_fill
+  · exact absurd h4 (by simp)
 
 /-- SwitchFeatures: header, DPID, fixed part and ports are written into a buffer allocated from Len() -/
 theorem switchFeatures_size (v : V) : SizeOK SwitchFeatures.lenM SwitchFeatures.marshalM v := by
@@ -1420,34 +1444,6 @@ theorem instrActions_embeds (v : V) (bs : Bytes) (v2 : V) (h2 : InstrActions.mar
     · exact absurd h3 (by simp)
   · exact absurd hl (by simp)
 
-/-- Bucket: the 16 fixed bytes (Length = Len(), weight, watch port, watch group, 4 zero bytes), then exactly the
-    encodings of the actions, complete and in order.  (What is MISSING is the padding Len() counts when that sum is
-    not a multiple of 8: `bucket_size_counterexample`.) -/
-theorem bucket_embeds (v : V) (bs : Bytes) (v2 : V) (h2 : Bucket.marshalM v = .ok (bs, v2)) :
-    ∃ l0 wt wp wg p as ls as1 bss as2, v = .obj "Bucket" [l0, .num wt, .num wp, .num wg, p, .list as] ∧
-      mapM2 Action.lenM as = .ok (ls, as1) ∧ mapM2 Action.marshalM as1 = .ok (bss, as2) ∧
-      bs = be16 (round8 (16 + sum16 ls)) ++ be16 (n16 wt) ++ be32 (n32 wp) ++ be32 (n32 wg) ++ zeros 4 ++ bss.flatten := by
-  unfold Bucket.marshalM at h2
-  obtain ⟨⟨l, v'⟩, hl, h3⟩ := bind_ok_inv _ _ _ h2
-  unfold Bucket.lenM at hl
-  split at hl
-  · rename_i l0 w' wp' wg' p as
-    obtain ⟨⟨ls, as1⟩, hm, hl'⟩ := bind_ok_inv _ _ _ hl
-    cases hl'
-    simp only at h3
-    split at h3
-    · rename_i heq
-      cases heq
-      obtain ⟨⟨abs, as2, e⟩, hml, h4⟩ := bind_ok_inv _ _ _ h3
-      obtain ⟨bss, hmm, rfl⟩ := marshalList_eq_mapM2 _ _ _ _ _ _ (fun x _ => Action.marshalM_noErr x) hml
-      simp only at h4
-      split at h4
-      · exact absurd h4 (by simp)
-      · cases h4
-        exact ⟨l0, _, _, _, p, as, ls, as1, bss, as2, rfl, hm, hmm, rfl⟩
-    · exact absurd h3 (by simp)
-  · exact absurd hl (by simp)
-
 /-- FlowMod (commands other than the two deletes): 8 header bytes, 40 fixed bytes, the complete Match, then exactly
     the encodings of the instructions, complete and in order -/
 theorem flowMod_embeds (v : V) (bs : Bytes) (v2 : V) (h2 : FlowMod.marshalM v = .ok (bs, v2)) :
@@ -1584,15 +1580,13 @@ theorem actionSetField_embeds (v : V) (bs : Bytes) (v2 : V) (h2 : ActionSetField
 
 /-! ### the hypotheses of the conditional theorems are satisfiable -/
 
-/-- the hypothesis of `groupMod_size_partial` is satisfiable: a bucket with one output action is aligned -/
-example : BucketAligned (.obj "Bucket" [.num 0, .num 0, .num 0, .num 0, .bytes [], .list [ActionOutput.new 1]]) := by
+/-- the hypothesis of `groupMod_size` is satisfiable: a bucket with one output action -/
+example : BucketFits (.obj "Bucket" [.num 0, .num 0, .num 0, .num 0, .bytes [], .list [ActionOutput.new 1]]) := by
   intro l b1 bytes b2 h1 h2
   have e1 : Bucket.lenM (.obj "Bucket" [.num 0, .num 0, .num 0, .num 0, .bytes [], .list [ActionOutput.new 1]]) =
       .ok (32, .obj "Bucket" [.num 0, .num 0, .num 0, .num 0, .bytes [], .list [ActionOutput.new 1]]) := rfl
   rw [e1] at h1
   cases h1
-  have := bucket_size_exact _ _ _ _ _ e1 h2
-  have h3 := (action_size (ActionOutput.new 1))
   obtain ⟨_, _, _, _, _, _, _, _, _, _, heq, hl, hm, rfl⟩ := bucket_embeds _ _ _ h2
   cases heq
   have e2 : mapM2 Action.lenM [ActionOutput.new 1] = .ok ([16], [ActionOutput.new 1]) := rfl
@@ -1602,7 +1596,7 @@ example : BucketAligned (.obj "Bucket" [.num 0, .num 0, .num 0, .num 0, .bytes [
       .ok ([[0, 0, 0, 16, 0, 0, 0, 1, 1, 0, 0, 0, 0, 0, 0, 0]], [ActionOutput.new 1]) := rfl
   rw [e3] at hm
   cases hm
-  rfl
+  decide
 
 /-- the hypothesis of `packetIn_sizeMod` is satisfiable: a frame without payload -/
 example : LenIdem PEthernet.lenM PEthernet.new := by
